@@ -24,7 +24,7 @@ demo_cmd=$(python3 -c "import json,sys; print(json.load(open('$src/meta.json')).
 # demo application: demo.diff if present, else copy files
 if [ -f "$src/demo.diff" ]; then git add -A; git apply "$src/demo.diff" >>$log 2>&1 || git apply --3way "$src/demo.diff" >>$log 2>&1 || { res "DEMO-APPLY-FAILED"; cleanup; exit 6; }; git reset -q; fi
 # strip leading 'git apply ... &&' and 'cd ... &&' parts from demo_cmd
-cmd=$(echo "$demo_cmd" | sed -E 's/^(cd [^&]*&& *)?(git apply [^&]*&& *)?//')
+mkdir -p tests; cmd=$(echo "$demo_cmd" | sed -E 's/^(cd [^&]*&& *)?(git apply [^&]*&& *)?//')
 res "demo cmd: $cmd"
 ( eval "$cmd" ) >>$log 2>&1; with=$?
 # now remove the patch but keep the demo
